@@ -96,3 +96,13 @@ Theorem C19_batchnorm_forward_float32_error : forall (sq : R -> R) (w b eps x m 
    <= 8 * u32 * (1 + u32) * Rabs (w * ((x - m) / sqrt (v + eps))) + u32 * (Rabs (w * ((x - m) / sqrt (v + eps))) + Rabs b))%R.
 Proof. intros sq w b eps x m v Hsq Hv N1 N2 N4 N5 N6. exact (bn_forward_float32_error sq w b eps x m v Hsq Hv N1 N2 N4 N5 N6). Qed.
 Print Assumptions C19_batchnorm_forward_float32_error.
+
+(* the hypotheses of the BatchNorm bound are met by ordinary values (weight 2, bias 1, mean 1, variance 4, input 3; the exact square
+   root is one admissible [sq]) *)
+Example C19_batchnorm_hypotheses_hold_for_ordinary_values :
+  let sq := sqrt in let w := 2%R in let b := 1%R in let eps := 0%R in let x := 3%R in let m := 1%R in let v := 4%R in
+  ((forall a, 0 <= a -> Rabs (sq a - sqrt a) <= 2 * u32 * sqrt a) /\ 0 < v + eps /\
+   tiny32 <= Rabs (x - m) /\ tiny32 <= Rabs (v + eps) /\ tiny32 <= Rabs (rnd32 (x - m) / sq (rnd32 (v + eps))) /\
+   tiny32 <= Rabs (w * rnd32 (rnd32 (x - m) / sq (rnd32 (v + eps)))) /\
+   tiny32 <= Rabs (rnd32 (w * rnd32 (rnd32 (x - m) / sq (rnd32 (v + eps)))) + b))%R.
+Proof. exact bn_hypotheses_hold_for_ordinary_values. Qed.
